@@ -225,6 +225,1322 @@ fn h_gcm_split_0_0_0() {
     gcm_split_body(0, 0, 0);
 }
 
+//@ props: C06
+//@ tier: thorough
+//@ functions: crypto::aesgcm::AesGcm256::encrypt (unaligned pieces, pending block handling); AesGcm256::into_tag; AesGcm256::decrypt
+//@ bounds: CONCRETE message length 2 cut at 0 and 0 (thorough tier: 103 enumerated splits over lengths 0,1,2,15,16,17,20,23,24 incl. every block-boundary alignment); symbolic message bytes, key, nonce
+//@ stubs: AES block function / GHASH multiply are the model primitives; alloc::fmt::format
+//@ outside: other lengths/splits; real AES/GHASH values (suite's NIST vectors)
+//@ replay: verif_replay_aesgcm::gcm_split len=2 c1=0 c2=0
+#[kani::proof]
+#[kani::unwind(26)]
+#[kani::stub(alloc::fmt::format, nofmt)]
+fn h_gcm_split_2_0_0() {
+    gcm_split_body(2, 0, 0);
+}
+
+//@ props: C06
+//@ tier: thorough
+//@ functions: crypto::aesgcm::AesGcm256::encrypt (unaligned pieces, pending block handling); AesGcm256::into_tag; AesGcm256::decrypt
+//@ bounds: CONCRETE message length 2 cut at 0 and 1 (thorough tier: 103 enumerated splits over lengths 0,1,2,15,16,17,20,23,24 incl. every block-boundary alignment); symbolic message bytes, key, nonce
+//@ stubs: AES block function / GHASH multiply are the model primitives; alloc::fmt::format
+//@ outside: other lengths/splits; real AES/GHASH values (suite's NIST vectors)
+//@ replay: verif_replay_aesgcm::gcm_split len=2 c1=0 c2=1
+#[kani::proof]
+#[kani::unwind(26)]
+#[kani::stub(alloc::fmt::format, nofmt)]
+fn h_gcm_split_2_0_1() {
+    gcm_split_body(2, 0, 1);
+}
+
+//@ props: C06
+//@ tier: thorough
+//@ functions: crypto::aesgcm::AesGcm256::encrypt (unaligned pieces, pending block handling); AesGcm256::into_tag; AesGcm256::decrypt
+//@ bounds: CONCRETE message length 2 cut at 0 and 2 (thorough tier: 103 enumerated splits over lengths 0,1,2,15,16,17,20,23,24 incl. every block-boundary alignment); symbolic message bytes, key, nonce
+//@ stubs: AES block function / GHASH multiply are the model primitives; alloc::fmt::format
+//@ outside: other lengths/splits; real AES/GHASH values (suite's NIST vectors)
+//@ replay: verif_replay_aesgcm::gcm_split len=2 c1=0 c2=2
+#[kani::proof]
+#[kani::unwind(26)]
+#[kani::stub(alloc::fmt::format, nofmt)]
+fn h_gcm_split_2_0_2() {
+    gcm_split_body(2, 0, 2);
+}
+
+//@ props: C06
+//@ tier: thorough
+//@ functions: crypto::aesgcm::AesGcm256::encrypt (unaligned pieces, pending block handling); AesGcm256::into_tag; AesGcm256::decrypt
+//@ bounds: CONCRETE message length 2 cut at 1 and 1 (thorough tier: 103 enumerated splits over lengths 0,1,2,15,16,17,20,23,24 incl. every block-boundary alignment); symbolic message bytes, key, nonce
+//@ stubs: AES block function / GHASH multiply are the model primitives; alloc::fmt::format
+//@ outside: other lengths/splits; real AES/GHASH values (suite's NIST vectors)
+//@ replay: verif_replay_aesgcm::gcm_split len=2 c1=1 c2=1
+#[kani::proof]
+#[kani::unwind(26)]
+#[kani::stub(alloc::fmt::format, nofmt)]
+fn h_gcm_split_2_1_1() {
+    gcm_split_body(2, 1, 1);
+}
+
+//@ props: C06
+//@ tier: thorough
+//@ functions: crypto::aesgcm::AesGcm256::encrypt (unaligned pieces, pending block handling); AesGcm256::into_tag; AesGcm256::decrypt
+//@ bounds: CONCRETE message length 2 cut at 1 and 2 (thorough tier: 103 enumerated splits over lengths 0,1,2,15,16,17,20,23,24 incl. every block-boundary alignment); symbolic message bytes, key, nonce
+//@ stubs: AES block function / GHASH multiply are the model primitives; alloc::fmt::format
+//@ outside: other lengths/splits; real AES/GHASH values (suite's NIST vectors)
+//@ replay: verif_replay_aesgcm::gcm_split len=2 c1=1 c2=2
+#[kani::proof]
+#[kani::unwind(26)]
+#[kani::stub(alloc::fmt::format, nofmt)]
+fn h_gcm_split_2_1_2() {
+    gcm_split_body(2, 1, 2);
+}
+
+//@ props: C06
+//@ tier: thorough
+//@ functions: crypto::aesgcm::AesGcm256::encrypt (unaligned pieces, pending block handling); AesGcm256::into_tag; AesGcm256::decrypt
+//@ bounds: CONCRETE message length 2 cut at 2 and 2 (thorough tier: 103 enumerated splits over lengths 0,1,2,15,16,17,20,23,24 incl. every block-boundary alignment); symbolic message bytes, key, nonce
+//@ stubs: AES block function / GHASH multiply are the model primitives; alloc::fmt::format
+//@ outside: other lengths/splits; real AES/GHASH values (suite's NIST vectors)
+//@ replay: verif_replay_aesgcm::gcm_split len=2 c1=2 c2=2
+#[kani::proof]
+#[kani::unwind(26)]
+#[kani::stub(alloc::fmt::format, nofmt)]
+fn h_gcm_split_2_2_2() {
+    gcm_split_body(2, 2, 2);
+}
+
+//@ props: C06
+//@ tier: thorough
+//@ functions: crypto::aesgcm::AesGcm256::encrypt (unaligned pieces, pending block handling); AesGcm256::into_tag; AesGcm256::decrypt
+//@ bounds: CONCRETE message length 15 cut at 0 and 0 (thorough tier: 103 enumerated splits over lengths 0,1,2,15,16,17,20,23,24 incl. every block-boundary alignment); symbolic message bytes, key, nonce
+//@ stubs: AES block function / GHASH multiply are the model primitives; alloc::fmt::format
+//@ outside: other lengths/splits; real AES/GHASH values (suite's NIST vectors)
+//@ replay: verif_replay_aesgcm::gcm_split len=15 c1=0 c2=0
+#[kani::proof]
+#[kani::unwind(26)]
+#[kani::stub(alloc::fmt::format, nofmt)]
+fn h_gcm_split_15_0_0() {
+    gcm_split_body(15, 0, 0);
+}
+
+//@ props: C06
+//@ tier: thorough
+//@ functions: crypto::aesgcm::AesGcm256::encrypt (unaligned pieces, pending block handling); AesGcm256::into_tag; AesGcm256::decrypt
+//@ bounds: CONCRETE message length 15 cut at 0 and 1 (thorough tier: 103 enumerated splits over lengths 0,1,2,15,16,17,20,23,24 incl. every block-boundary alignment); symbolic message bytes, key, nonce
+//@ stubs: AES block function / GHASH multiply are the model primitives; alloc::fmt::format
+//@ outside: other lengths/splits; real AES/GHASH values (suite's NIST vectors)
+//@ replay: verif_replay_aesgcm::gcm_split len=15 c1=0 c2=1
+#[kani::proof]
+#[kani::unwind(26)]
+#[kani::stub(alloc::fmt::format, nofmt)]
+fn h_gcm_split_15_0_1() {
+    gcm_split_body(15, 0, 1);
+}
+
+//@ props: C06
+//@ tier: thorough
+//@ functions: crypto::aesgcm::AesGcm256::encrypt (unaligned pieces, pending block handling); AesGcm256::into_tag; AesGcm256::decrypt
+//@ bounds: CONCRETE message length 15 cut at 0 and 15 (thorough tier: 103 enumerated splits over lengths 0,1,2,15,16,17,20,23,24 incl. every block-boundary alignment); symbolic message bytes, key, nonce
+//@ stubs: AES block function / GHASH multiply are the model primitives; alloc::fmt::format
+//@ outside: other lengths/splits; real AES/GHASH values (suite's NIST vectors)
+//@ replay: verif_replay_aesgcm::gcm_split len=15 c1=0 c2=15
+#[kani::proof]
+#[kani::unwind(26)]
+#[kani::stub(alloc::fmt::format, nofmt)]
+fn h_gcm_split_15_0_15() {
+    gcm_split_body(15, 0, 15);
+}
+
+//@ props: C06
+//@ tier: thorough
+//@ functions: crypto::aesgcm::AesGcm256::encrypt (unaligned pieces, pending block handling); AesGcm256::into_tag; AesGcm256::decrypt
+//@ bounds: CONCRETE message length 15 cut at 1 and 1 (thorough tier: 103 enumerated splits over lengths 0,1,2,15,16,17,20,23,24 incl. every block-boundary alignment); symbolic message bytes, key, nonce
+//@ stubs: AES block function / GHASH multiply are the model primitives; alloc::fmt::format
+//@ outside: other lengths/splits; real AES/GHASH values (suite's NIST vectors)
+//@ replay: verif_replay_aesgcm::gcm_split len=15 c1=1 c2=1
+#[kani::proof]
+#[kani::unwind(26)]
+#[kani::stub(alloc::fmt::format, nofmt)]
+fn h_gcm_split_15_1_1() {
+    gcm_split_body(15, 1, 1);
+}
+
+//@ props: C06
+//@ tier: thorough
+//@ functions: crypto::aesgcm::AesGcm256::encrypt (unaligned pieces, pending block handling); AesGcm256::into_tag; AesGcm256::decrypt
+//@ bounds: CONCRETE message length 15 cut at 1 and 2 (thorough tier: 103 enumerated splits over lengths 0,1,2,15,16,17,20,23,24 incl. every block-boundary alignment); symbolic message bytes, key, nonce
+//@ stubs: AES block function / GHASH multiply are the model primitives; alloc::fmt::format
+//@ outside: other lengths/splits; real AES/GHASH values (suite's NIST vectors)
+//@ replay: verif_replay_aesgcm::gcm_split len=15 c1=1 c2=2
+#[kani::proof]
+#[kani::unwind(26)]
+#[kani::stub(alloc::fmt::format, nofmt)]
+fn h_gcm_split_15_1_2() {
+    gcm_split_body(15, 1, 2);
+}
+
+//@ props: C06
+//@ tier: thorough
+//@ functions: crypto::aesgcm::AesGcm256::encrypt (unaligned pieces, pending block handling); AesGcm256::into_tag; AesGcm256::decrypt
+//@ bounds: CONCRETE message length 15 cut at 1 and 15 (thorough tier: 103 enumerated splits over lengths 0,1,2,15,16,17,20,23,24 incl. every block-boundary alignment); symbolic message bytes, key, nonce
+//@ stubs: AES block function / GHASH multiply are the model primitives; alloc::fmt::format
+//@ outside: other lengths/splits; real AES/GHASH values (suite's NIST vectors)
+//@ replay: verif_replay_aesgcm::gcm_split len=15 c1=1 c2=15
+#[kani::proof]
+#[kani::unwind(26)]
+#[kani::stub(alloc::fmt::format, nofmt)]
+fn h_gcm_split_15_1_15() {
+    gcm_split_body(15, 1, 15);
+}
+
+//@ props: C06
+//@ tier: thorough
+//@ functions: crypto::aesgcm::AesGcm256::encrypt (unaligned pieces, pending block handling); AesGcm256::into_tag; AesGcm256::decrypt
+//@ bounds: CONCRETE message length 15 cut at 7 and 7 (thorough tier: 103 enumerated splits over lengths 0,1,2,15,16,17,20,23,24 incl. every block-boundary alignment); symbolic message bytes, key, nonce
+//@ stubs: AES block function / GHASH multiply are the model primitives; alloc::fmt::format
+//@ outside: other lengths/splits; real AES/GHASH values (suite's NIST vectors)
+//@ replay: verif_replay_aesgcm::gcm_split len=15 c1=7 c2=7
+#[kani::proof]
+#[kani::unwind(26)]
+#[kani::stub(alloc::fmt::format, nofmt)]
+fn h_gcm_split_15_7_7() {
+    gcm_split_body(15, 7, 7);
+}
+
+//@ props: C06
+//@ tier: thorough
+//@ functions: crypto::aesgcm::AesGcm256::encrypt (unaligned pieces, pending block handling); AesGcm256::into_tag; AesGcm256::decrypt
+//@ bounds: CONCRETE message length 15 cut at 7 and 8 (thorough tier: 103 enumerated splits over lengths 0,1,2,15,16,17,20,23,24 incl. every block-boundary alignment); symbolic message bytes, key, nonce
+//@ stubs: AES block function / GHASH multiply are the model primitives; alloc::fmt::format
+//@ outside: other lengths/splits; real AES/GHASH values (suite's NIST vectors)
+//@ replay: verif_replay_aesgcm::gcm_split len=15 c1=7 c2=8
+#[kani::proof]
+#[kani::unwind(26)]
+#[kani::stub(alloc::fmt::format, nofmt)]
+fn h_gcm_split_15_7_8() {
+    gcm_split_body(15, 7, 8);
+}
+
+//@ props: C06
+//@ tier: thorough
+//@ functions: crypto::aesgcm::AesGcm256::encrypt (unaligned pieces, pending block handling); AesGcm256::into_tag; AesGcm256::decrypt
+//@ bounds: CONCRETE message length 15 cut at 7 and 15 (thorough tier: 103 enumerated splits over lengths 0,1,2,15,16,17,20,23,24 incl. every block-boundary alignment); symbolic message bytes, key, nonce
+//@ stubs: AES block function / GHASH multiply are the model primitives; alloc::fmt::format
+//@ outside: other lengths/splits; real AES/GHASH values (suite's NIST vectors)
+//@ replay: verif_replay_aesgcm::gcm_split len=15 c1=7 c2=15
+#[kani::proof]
+#[kani::unwind(26)]
+#[kani::stub(alloc::fmt::format, nofmt)]
+fn h_gcm_split_15_7_15() {
+    gcm_split_body(15, 7, 15);
+}
+
+//@ props: C06
+//@ tier: thorough
+//@ functions: crypto::aesgcm::AesGcm256::encrypt (unaligned pieces, pending block handling); AesGcm256::into_tag; AesGcm256::decrypt
+//@ bounds: CONCRETE message length 15 cut at 14 and 14 (thorough tier: 103 enumerated splits over lengths 0,1,2,15,16,17,20,23,24 incl. every block-boundary alignment); symbolic message bytes, key, nonce
+//@ stubs: AES block function / GHASH multiply are the model primitives; alloc::fmt::format
+//@ outside: other lengths/splits; real AES/GHASH values (suite's NIST vectors)
+//@ replay: verif_replay_aesgcm::gcm_split len=15 c1=14 c2=14
+#[kani::proof]
+#[kani::unwind(26)]
+#[kani::stub(alloc::fmt::format, nofmt)]
+fn h_gcm_split_15_14_14() {
+    gcm_split_body(15, 14, 14);
+}
+
+//@ props: C06
+//@ tier: thorough
+//@ functions: crypto::aesgcm::AesGcm256::encrypt (unaligned pieces, pending block handling); AesGcm256::into_tag; AesGcm256::decrypt
+//@ bounds: CONCRETE message length 15 cut at 14 and 15 (thorough tier: 103 enumerated splits over lengths 0,1,2,15,16,17,20,23,24 incl. every block-boundary alignment); symbolic message bytes, key, nonce
+//@ stubs: AES block function / GHASH multiply are the model primitives; alloc::fmt::format
+//@ outside: other lengths/splits; real AES/GHASH values (suite's NIST vectors)
+//@ replay: verif_replay_aesgcm::gcm_split len=15 c1=14 c2=15
+#[kani::proof]
+#[kani::unwind(26)]
+#[kani::stub(alloc::fmt::format, nofmt)]
+fn h_gcm_split_15_14_15() {
+    gcm_split_body(15, 14, 15);
+}
+
+//@ props: C06
+//@ tier: thorough
+//@ functions: crypto::aesgcm::AesGcm256::encrypt (unaligned pieces, pending block handling); AesGcm256::into_tag; AesGcm256::decrypt
+//@ bounds: CONCRETE message length 15 cut at 15 and 15 (thorough tier: 103 enumerated splits over lengths 0,1,2,15,16,17,20,23,24 incl. every block-boundary alignment); symbolic message bytes, key, nonce
+//@ stubs: AES block function / GHASH multiply are the model primitives; alloc::fmt::format
+//@ outside: other lengths/splits; real AES/GHASH values (suite's NIST vectors)
+//@ replay: verif_replay_aesgcm::gcm_split len=15 c1=15 c2=15
+#[kani::proof]
+#[kani::unwind(26)]
+#[kani::stub(alloc::fmt::format, nofmt)]
+fn h_gcm_split_15_15_15() {
+    gcm_split_body(15, 15, 15);
+}
+
+//@ props: C06
+//@ tier: thorough
+//@ functions: crypto::aesgcm::AesGcm256::encrypt (unaligned pieces, pending block handling); AesGcm256::into_tag; AesGcm256::decrypt
+//@ bounds: CONCRETE message length 16 cut at 0 and 0 (thorough tier: 103 enumerated splits over lengths 0,1,2,15,16,17,20,23,24 incl. every block-boundary alignment); symbolic message bytes, key, nonce
+//@ stubs: AES block function / GHASH multiply are the model primitives; alloc::fmt::format
+//@ outside: other lengths/splits; real AES/GHASH values (suite's NIST vectors)
+//@ replay: verif_replay_aesgcm::gcm_split len=16 c1=0 c2=0
+#[kani::proof]
+#[kani::unwind(26)]
+#[kani::stub(alloc::fmt::format, nofmt)]
+fn h_gcm_split_16_0_0() {
+    gcm_split_body(16, 0, 0);
+}
+
+//@ props: C06
+//@ tier: thorough
+//@ functions: crypto::aesgcm::AesGcm256::encrypt (unaligned pieces, pending block handling); AesGcm256::into_tag; AesGcm256::decrypt
+//@ bounds: CONCRETE message length 16 cut at 0 and 1 (thorough tier: 103 enumerated splits over lengths 0,1,2,15,16,17,20,23,24 incl. every block-boundary alignment); symbolic message bytes, key, nonce
+//@ stubs: AES block function / GHASH multiply are the model primitives; alloc::fmt::format
+//@ outside: other lengths/splits; real AES/GHASH values (suite's NIST vectors)
+//@ replay: verif_replay_aesgcm::gcm_split len=16 c1=0 c2=1
+#[kani::proof]
+#[kani::unwind(26)]
+#[kani::stub(alloc::fmt::format, nofmt)]
+fn h_gcm_split_16_0_1() {
+    gcm_split_body(16, 0, 1);
+}
+
+//@ props: C06
+//@ tier: thorough
+//@ functions: crypto::aesgcm::AesGcm256::encrypt (unaligned pieces, pending block handling); AesGcm256::into_tag; AesGcm256::decrypt
+//@ bounds: CONCRETE message length 16 cut at 0 and 16 (thorough tier: 103 enumerated splits over lengths 0,1,2,15,16,17,20,23,24 incl. every block-boundary alignment); symbolic message bytes, key, nonce
+//@ stubs: AES block function / GHASH multiply are the model primitives; alloc::fmt::format
+//@ outside: other lengths/splits; real AES/GHASH values (suite's NIST vectors)
+//@ replay: verif_replay_aesgcm::gcm_split len=16 c1=0 c2=16
+#[kani::proof]
+#[kani::unwind(26)]
+#[kani::stub(alloc::fmt::format, nofmt)]
+fn h_gcm_split_16_0_16() {
+    gcm_split_body(16, 0, 16);
+}
+
+//@ props: C06
+//@ tier: thorough
+//@ functions: crypto::aesgcm::AesGcm256::encrypt (unaligned pieces, pending block handling); AesGcm256::into_tag; AesGcm256::decrypt
+//@ bounds: CONCRETE message length 16 cut at 1 and 1 (thorough tier: 103 enumerated splits over lengths 0,1,2,15,16,17,20,23,24 incl. every block-boundary alignment); symbolic message bytes, key, nonce
+//@ stubs: AES block function / GHASH multiply are the model primitives; alloc::fmt::format
+//@ outside: other lengths/splits; real AES/GHASH values (suite's NIST vectors)
+//@ replay: verif_replay_aesgcm::gcm_split len=16 c1=1 c2=1
+#[kani::proof]
+#[kani::unwind(26)]
+#[kani::stub(alloc::fmt::format, nofmt)]
+fn h_gcm_split_16_1_1() {
+    gcm_split_body(16, 1, 1);
+}
+
+//@ props: C06
+//@ tier: thorough
+//@ functions: crypto::aesgcm::AesGcm256::encrypt (unaligned pieces, pending block handling); AesGcm256::into_tag; AesGcm256::decrypt
+//@ bounds: CONCRETE message length 16 cut at 1 and 2 (thorough tier: 103 enumerated splits over lengths 0,1,2,15,16,17,20,23,24 incl. every block-boundary alignment); symbolic message bytes, key, nonce
+//@ stubs: AES block function / GHASH multiply are the model primitives; alloc::fmt::format
+//@ outside: other lengths/splits; real AES/GHASH values (suite's NIST vectors)
+//@ replay: verif_replay_aesgcm::gcm_split len=16 c1=1 c2=2
+#[kani::proof]
+#[kani::unwind(26)]
+#[kani::stub(alloc::fmt::format, nofmt)]
+fn h_gcm_split_16_1_2() {
+    gcm_split_body(16, 1, 2);
+}
+
+//@ props: C06
+//@ tier: thorough
+//@ functions: crypto::aesgcm::AesGcm256::encrypt (unaligned pieces, pending block handling); AesGcm256::into_tag; AesGcm256::decrypt
+//@ bounds: CONCRETE message length 16 cut at 1 and 16 (thorough tier: 103 enumerated splits over lengths 0,1,2,15,16,17,20,23,24 incl. every block-boundary alignment); symbolic message bytes, key, nonce
+//@ stubs: AES block function / GHASH multiply are the model primitives; alloc::fmt::format
+//@ outside: other lengths/splits; real AES/GHASH values (suite's NIST vectors)
+//@ replay: verif_replay_aesgcm::gcm_split len=16 c1=1 c2=16
+#[kani::proof]
+#[kani::unwind(26)]
+#[kani::stub(alloc::fmt::format, nofmt)]
+fn h_gcm_split_16_1_16() {
+    gcm_split_body(16, 1, 16);
+}
+
+//@ props: C06
+//@ tier: thorough
+//@ functions: crypto::aesgcm::AesGcm256::encrypt (unaligned pieces, pending block handling); AesGcm256::into_tag; AesGcm256::decrypt
+//@ bounds: CONCRETE message length 16 cut at 8 and 8 (thorough tier: 103 enumerated splits over lengths 0,1,2,15,16,17,20,23,24 incl. every block-boundary alignment); symbolic message bytes, key, nonce
+//@ stubs: AES block function / GHASH multiply are the model primitives; alloc::fmt::format
+//@ outside: other lengths/splits; real AES/GHASH values (suite's NIST vectors)
+//@ replay: verif_replay_aesgcm::gcm_split len=16 c1=8 c2=8
+#[kani::proof]
+#[kani::unwind(26)]
+#[kani::stub(alloc::fmt::format, nofmt)]
+fn h_gcm_split_16_8_8() {
+    gcm_split_body(16, 8, 8);
+}
+
+//@ props: C06
+//@ tier: thorough
+//@ functions: crypto::aesgcm::AesGcm256::encrypt (unaligned pieces, pending block handling); AesGcm256::into_tag; AesGcm256::decrypt
+//@ bounds: CONCRETE message length 16 cut at 8 and 9 (thorough tier: 103 enumerated splits over lengths 0,1,2,15,16,17,20,23,24 incl. every block-boundary alignment); symbolic message bytes, key, nonce
+//@ stubs: AES block function / GHASH multiply are the model primitives; alloc::fmt::format
+//@ outside: other lengths/splits; real AES/GHASH values (suite's NIST vectors)
+//@ replay: verif_replay_aesgcm::gcm_split len=16 c1=8 c2=9
+#[kani::proof]
+#[kani::unwind(26)]
+#[kani::stub(alloc::fmt::format, nofmt)]
+fn h_gcm_split_16_8_9() {
+    gcm_split_body(16, 8, 9);
+}
+
+//@ props: C06
+//@ tier: thorough
+//@ functions: crypto::aesgcm::AesGcm256::encrypt (unaligned pieces, pending block handling); AesGcm256::into_tag; AesGcm256::decrypt
+//@ bounds: CONCRETE message length 16 cut at 8 and 16 (thorough tier: 103 enumerated splits over lengths 0,1,2,15,16,17,20,23,24 incl. every block-boundary alignment); symbolic message bytes, key, nonce
+//@ stubs: AES block function / GHASH multiply are the model primitives; alloc::fmt::format
+//@ outside: other lengths/splits; real AES/GHASH values (suite's NIST vectors)
+//@ replay: verif_replay_aesgcm::gcm_split len=16 c1=8 c2=16
+#[kani::proof]
+#[kani::unwind(26)]
+#[kani::stub(alloc::fmt::format, nofmt)]
+fn h_gcm_split_16_8_16() {
+    gcm_split_body(16, 8, 16);
+}
+
+//@ props: C06
+//@ tier: thorough
+//@ functions: crypto::aesgcm::AesGcm256::encrypt (unaligned pieces, pending block handling); AesGcm256::into_tag; AesGcm256::decrypt
+//@ bounds: CONCRETE message length 16 cut at 15 and 15 (thorough tier: 103 enumerated splits over lengths 0,1,2,15,16,17,20,23,24 incl. every block-boundary alignment); symbolic message bytes, key, nonce
+//@ stubs: AES block function / GHASH multiply are the model primitives; alloc::fmt::format
+//@ outside: other lengths/splits; real AES/GHASH values (suite's NIST vectors)
+//@ replay: verif_replay_aesgcm::gcm_split len=16 c1=15 c2=15
+#[kani::proof]
+#[kani::unwind(26)]
+#[kani::stub(alloc::fmt::format, nofmt)]
+fn h_gcm_split_16_15_15() {
+    gcm_split_body(16, 15, 15);
+}
+
+//@ props: C06
+//@ tier: thorough
+//@ functions: crypto::aesgcm::AesGcm256::encrypt (unaligned pieces, pending block handling); AesGcm256::into_tag; AesGcm256::decrypt
+//@ bounds: CONCRETE message length 16 cut at 15 and 16 (thorough tier: 103 enumerated splits over lengths 0,1,2,15,16,17,20,23,24 incl. every block-boundary alignment); symbolic message bytes, key, nonce
+//@ stubs: AES block function / GHASH multiply are the model primitives; alloc::fmt::format
+//@ outside: other lengths/splits; real AES/GHASH values (suite's NIST vectors)
+//@ replay: verif_replay_aesgcm::gcm_split len=16 c1=15 c2=16
+#[kani::proof]
+#[kani::unwind(26)]
+#[kani::stub(alloc::fmt::format, nofmt)]
+fn h_gcm_split_16_15_16() {
+    gcm_split_body(16, 15, 16);
+}
+
+//@ props: C06
+//@ tier: thorough
+//@ functions: crypto::aesgcm::AesGcm256::encrypt (unaligned pieces, pending block handling); AesGcm256::into_tag; AesGcm256::decrypt
+//@ bounds: CONCRETE message length 16 cut at 16 and 16 (thorough tier: 103 enumerated splits over lengths 0,1,2,15,16,17,20,23,24 incl. every block-boundary alignment); symbolic message bytes, key, nonce
+//@ stubs: AES block function / GHASH multiply are the model primitives; alloc::fmt::format
+//@ outside: other lengths/splits; real AES/GHASH values (suite's NIST vectors)
+//@ replay: verif_replay_aesgcm::gcm_split len=16 c1=16 c2=16
+#[kani::proof]
+#[kani::unwind(26)]
+#[kani::stub(alloc::fmt::format, nofmt)]
+fn h_gcm_split_16_16_16() {
+    gcm_split_body(16, 16, 16);
+}
+
+//@ props: C06
+//@ tier: thorough
+//@ functions: crypto::aesgcm::AesGcm256::encrypt (unaligned pieces, pending block handling); AesGcm256::into_tag; AesGcm256::decrypt
+//@ bounds: CONCRETE message length 17 cut at 0 and 0 (thorough tier: 103 enumerated splits over lengths 0,1,2,15,16,17,20,23,24 incl. every block-boundary alignment); symbolic message bytes, key, nonce
+//@ stubs: AES block function / GHASH multiply are the model primitives; alloc::fmt::format
+//@ outside: other lengths/splits; real AES/GHASH values (suite's NIST vectors)
+//@ replay: verif_replay_aesgcm::gcm_split len=17 c1=0 c2=0
+#[kani::proof]
+#[kani::unwind(26)]
+#[kani::stub(alloc::fmt::format, nofmt)]
+fn h_gcm_split_17_0_0() {
+    gcm_split_body(17, 0, 0);
+}
+
+//@ props: C06
+//@ tier: thorough
+//@ functions: crypto::aesgcm::AesGcm256::encrypt (unaligned pieces, pending block handling); AesGcm256::into_tag; AesGcm256::decrypt
+//@ bounds: CONCRETE message length 17 cut at 0 and 1 (thorough tier: 103 enumerated splits over lengths 0,1,2,15,16,17,20,23,24 incl. every block-boundary alignment); symbolic message bytes, key, nonce
+//@ stubs: AES block function / GHASH multiply are the model primitives; alloc::fmt::format
+//@ outside: other lengths/splits; real AES/GHASH values (suite's NIST vectors)
+//@ replay: verif_replay_aesgcm::gcm_split len=17 c1=0 c2=1
+#[kani::proof]
+#[kani::unwind(26)]
+#[kani::stub(alloc::fmt::format, nofmt)]
+fn h_gcm_split_17_0_1() {
+    gcm_split_body(17, 0, 1);
+}
+
+//@ props: C06
+//@ tier: thorough
+//@ functions: crypto::aesgcm::AesGcm256::encrypt (unaligned pieces, pending block handling); AesGcm256::into_tag; AesGcm256::decrypt
+//@ bounds: CONCRETE message length 17 cut at 0 and 16 (thorough tier: 103 enumerated splits over lengths 0,1,2,15,16,17,20,23,24 incl. every block-boundary alignment); symbolic message bytes, key, nonce
+//@ stubs: AES block function / GHASH multiply are the model primitives; alloc::fmt::format
+//@ outside: other lengths/splits; real AES/GHASH values (suite's NIST vectors)
+//@ replay: verif_replay_aesgcm::gcm_split len=17 c1=0 c2=16
+#[kani::proof]
+#[kani::unwind(26)]
+#[kani::stub(alloc::fmt::format, nofmt)]
+fn h_gcm_split_17_0_16() {
+    gcm_split_body(17, 0, 16);
+}
+
+//@ props: C06
+//@ tier: thorough
+//@ functions: crypto::aesgcm::AesGcm256::encrypt (unaligned pieces, pending block handling); AesGcm256::into_tag; AesGcm256::decrypt
+//@ bounds: CONCRETE message length 17 cut at 0 and 17 (thorough tier: 103 enumerated splits over lengths 0,1,2,15,16,17,20,23,24 incl. every block-boundary alignment); symbolic message bytes, key, nonce
+//@ stubs: AES block function / GHASH multiply are the model primitives; alloc::fmt::format
+//@ outside: other lengths/splits; real AES/GHASH values (suite's NIST vectors)
+//@ replay: verif_replay_aesgcm::gcm_split len=17 c1=0 c2=17
+#[kani::proof]
+#[kani::unwind(26)]
+#[kani::stub(alloc::fmt::format, nofmt)]
+fn h_gcm_split_17_0_17() {
+    gcm_split_body(17, 0, 17);
+}
+
+//@ props: C06
+//@ tier: thorough
+//@ functions: crypto::aesgcm::AesGcm256::encrypt (unaligned pieces, pending block handling); AesGcm256::into_tag; AesGcm256::decrypt
+//@ bounds: CONCRETE message length 17 cut at 1 and 1 (thorough tier: 103 enumerated splits over lengths 0,1,2,15,16,17,20,23,24 incl. every block-boundary alignment); symbolic message bytes, key, nonce
+//@ stubs: AES block function / GHASH multiply are the model primitives; alloc::fmt::format
+//@ outside: other lengths/splits; real AES/GHASH values (suite's NIST vectors)
+//@ replay: verif_replay_aesgcm::gcm_split len=17 c1=1 c2=1
+#[kani::proof]
+#[kani::unwind(26)]
+#[kani::stub(alloc::fmt::format, nofmt)]
+fn h_gcm_split_17_1_1() {
+    gcm_split_body(17, 1, 1);
+}
+
+//@ props: C06
+//@ tier: thorough
+//@ functions: crypto::aesgcm::AesGcm256::encrypt (unaligned pieces, pending block handling); AesGcm256::into_tag; AesGcm256::decrypt
+//@ bounds: CONCRETE message length 17 cut at 1 and 2 (thorough tier: 103 enumerated splits over lengths 0,1,2,15,16,17,20,23,24 incl. every block-boundary alignment); symbolic message bytes, key, nonce
+//@ stubs: AES block function / GHASH multiply are the model primitives; alloc::fmt::format
+//@ outside: other lengths/splits; real AES/GHASH values (suite's NIST vectors)
+//@ replay: verif_replay_aesgcm::gcm_split len=17 c1=1 c2=2
+#[kani::proof]
+#[kani::unwind(26)]
+#[kani::stub(alloc::fmt::format, nofmt)]
+fn h_gcm_split_17_1_2() {
+    gcm_split_body(17, 1, 2);
+}
+
+//@ props: C06
+//@ tier: thorough
+//@ functions: crypto::aesgcm::AesGcm256::encrypt (unaligned pieces, pending block handling); AesGcm256::into_tag; AesGcm256::decrypt
+//@ bounds: CONCRETE message length 17 cut at 1 and 17 (thorough tier: 103 enumerated splits over lengths 0,1,2,15,16,17,20,23,24 incl. every block-boundary alignment); symbolic message bytes, key, nonce
+//@ stubs: AES block function / GHASH multiply are the model primitives; alloc::fmt::format
+//@ outside: other lengths/splits; real AES/GHASH values (suite's NIST vectors)
+//@ replay: verif_replay_aesgcm::gcm_split len=17 c1=1 c2=17
+#[kani::proof]
+#[kani::unwind(26)]
+#[kani::stub(alloc::fmt::format, nofmt)]
+fn h_gcm_split_17_1_17() {
+    gcm_split_body(17, 1, 17);
+}
+
+//@ props: C06
+//@ tier: thorough
+//@ functions: crypto::aesgcm::AesGcm256::encrypt (unaligned pieces, pending block handling); AesGcm256::into_tag; AesGcm256::decrypt
+//@ bounds: CONCRETE message length 17 cut at 8 and 8 (thorough tier: 103 enumerated splits over lengths 0,1,2,15,16,17,20,23,24 incl. every block-boundary alignment); symbolic message bytes, key, nonce
+//@ stubs: AES block function / GHASH multiply are the model primitives; alloc::fmt::format
+//@ outside: other lengths/splits; real AES/GHASH values (suite's NIST vectors)
+//@ replay: verif_replay_aesgcm::gcm_split len=17 c1=8 c2=8
+#[kani::proof]
+#[kani::unwind(26)]
+#[kani::stub(alloc::fmt::format, nofmt)]
+fn h_gcm_split_17_8_8() {
+    gcm_split_body(17, 8, 8);
+}
+
+//@ props: C06
+//@ tier: thorough
+//@ functions: crypto::aesgcm::AesGcm256::encrypt (unaligned pieces, pending block handling); AesGcm256::into_tag; AesGcm256::decrypt
+//@ bounds: CONCRETE message length 17 cut at 8 and 9 (thorough tier: 103 enumerated splits over lengths 0,1,2,15,16,17,20,23,24 incl. every block-boundary alignment); symbolic message bytes, key, nonce
+//@ stubs: AES block function / GHASH multiply are the model primitives; alloc::fmt::format
+//@ outside: other lengths/splits; real AES/GHASH values (suite's NIST vectors)
+//@ replay: verif_replay_aesgcm::gcm_split len=17 c1=8 c2=9
+#[kani::proof]
+#[kani::unwind(26)]
+#[kani::stub(alloc::fmt::format, nofmt)]
+fn h_gcm_split_17_8_9() {
+    gcm_split_body(17, 8, 9);
+}
+
+//@ props: C06
+//@ tier: thorough
+//@ functions: crypto::aesgcm::AesGcm256::encrypt (unaligned pieces, pending block handling); AesGcm256::into_tag; AesGcm256::decrypt
+//@ bounds: CONCRETE message length 17 cut at 8 and 16 (thorough tier: 103 enumerated splits over lengths 0,1,2,15,16,17,20,23,24 incl. every block-boundary alignment); symbolic message bytes, key, nonce
+//@ stubs: AES block function / GHASH multiply are the model primitives; alloc::fmt::format
+//@ outside: other lengths/splits; real AES/GHASH values (suite's NIST vectors)
+//@ replay: verif_replay_aesgcm::gcm_split len=17 c1=8 c2=16
+#[kani::proof]
+#[kani::unwind(26)]
+#[kani::stub(alloc::fmt::format, nofmt)]
+fn h_gcm_split_17_8_16() {
+    gcm_split_body(17, 8, 16);
+}
+
+//@ props: C06
+//@ tier: thorough
+//@ functions: crypto::aesgcm::AesGcm256::encrypt (unaligned pieces, pending block handling); AesGcm256::into_tag; AesGcm256::decrypt
+//@ bounds: CONCRETE message length 17 cut at 8 and 17 (thorough tier: 103 enumerated splits over lengths 0,1,2,15,16,17,20,23,24 incl. every block-boundary alignment); symbolic message bytes, key, nonce
+//@ stubs: AES block function / GHASH multiply are the model primitives; alloc::fmt::format
+//@ outside: other lengths/splits; real AES/GHASH values (suite's NIST vectors)
+//@ replay: verif_replay_aesgcm::gcm_split len=17 c1=8 c2=17
+#[kani::proof]
+#[kani::unwind(26)]
+#[kani::stub(alloc::fmt::format, nofmt)]
+fn h_gcm_split_17_8_17() {
+    gcm_split_body(17, 8, 17);
+}
+
+//@ props: C06
+//@ tier: thorough
+//@ functions: crypto::aesgcm::AesGcm256::encrypt (unaligned pieces, pending block handling); AesGcm256::into_tag; AesGcm256::decrypt
+//@ bounds: CONCRETE message length 17 cut at 15 and 15 (thorough tier: 103 enumerated splits over lengths 0,1,2,15,16,17,20,23,24 incl. every block-boundary alignment); symbolic message bytes, key, nonce
+//@ stubs: AES block function / GHASH multiply are the model primitives; alloc::fmt::format
+//@ outside: other lengths/splits; real AES/GHASH values (suite's NIST vectors)
+//@ replay: verif_replay_aesgcm::gcm_split len=17 c1=15 c2=15
+#[kani::proof]
+#[kani::unwind(26)]
+#[kani::stub(alloc::fmt::format, nofmt)]
+fn h_gcm_split_17_15_15() {
+    gcm_split_body(17, 15, 15);
+}
+
+//@ props: C06
+//@ tier: thorough
+//@ functions: crypto::aesgcm::AesGcm256::encrypt (unaligned pieces, pending block handling); AesGcm256::into_tag; AesGcm256::decrypt
+//@ bounds: CONCRETE message length 17 cut at 15 and 16 (thorough tier: 103 enumerated splits over lengths 0,1,2,15,16,17,20,23,24 incl. every block-boundary alignment); symbolic message bytes, key, nonce
+//@ stubs: AES block function / GHASH multiply are the model primitives; alloc::fmt::format
+//@ outside: other lengths/splits; real AES/GHASH values (suite's NIST vectors)
+//@ replay: verif_replay_aesgcm::gcm_split len=17 c1=15 c2=16
+#[kani::proof]
+#[kani::unwind(26)]
+#[kani::stub(alloc::fmt::format, nofmt)]
+fn h_gcm_split_17_15_16() {
+    gcm_split_body(17, 15, 16);
+}
+
+//@ props: C06
+//@ tier: thorough
+//@ functions: crypto::aesgcm::AesGcm256::encrypt (unaligned pieces, pending block handling); AesGcm256::into_tag; AesGcm256::decrypt
+//@ bounds: CONCRETE message length 17 cut at 15 and 17 (thorough tier: 103 enumerated splits over lengths 0,1,2,15,16,17,20,23,24 incl. every block-boundary alignment); symbolic message bytes, key, nonce
+//@ stubs: AES block function / GHASH multiply are the model primitives; alloc::fmt::format
+//@ outside: other lengths/splits; real AES/GHASH values (suite's NIST vectors)
+//@ replay: verif_replay_aesgcm::gcm_split len=17 c1=15 c2=17
+#[kani::proof]
+#[kani::unwind(26)]
+#[kani::stub(alloc::fmt::format, nofmt)]
+fn h_gcm_split_17_15_17() {
+    gcm_split_body(17, 15, 17);
+}
+
+//@ props: C06
+//@ tier: thorough
+//@ functions: crypto::aesgcm::AesGcm256::encrypt (unaligned pieces, pending block handling); AesGcm256::into_tag; AesGcm256::decrypt
+//@ bounds: CONCRETE message length 17 cut at 16 and 16 (thorough tier: 103 enumerated splits over lengths 0,1,2,15,16,17,20,23,24 incl. every block-boundary alignment); symbolic message bytes, key, nonce
+//@ stubs: AES block function / GHASH multiply are the model primitives; alloc::fmt::format
+//@ outside: other lengths/splits; real AES/GHASH values (suite's NIST vectors)
+//@ replay: verif_replay_aesgcm::gcm_split len=17 c1=16 c2=16
+#[kani::proof]
+#[kani::unwind(26)]
+#[kani::stub(alloc::fmt::format, nofmt)]
+fn h_gcm_split_17_16_16() {
+    gcm_split_body(17, 16, 16);
+}
+
+//@ props: C06
+//@ tier: thorough
+//@ functions: crypto::aesgcm::AesGcm256::encrypt (unaligned pieces, pending block handling); AesGcm256::into_tag; AesGcm256::decrypt
+//@ bounds: CONCRETE message length 17 cut at 16 and 17 (thorough tier: 103 enumerated splits over lengths 0,1,2,15,16,17,20,23,24 incl. every block-boundary alignment); symbolic message bytes, key, nonce
+//@ stubs: AES block function / GHASH multiply are the model primitives; alloc::fmt::format
+//@ outside: other lengths/splits; real AES/GHASH values (suite's NIST vectors)
+//@ replay: verif_replay_aesgcm::gcm_split len=17 c1=16 c2=17
+#[kani::proof]
+#[kani::unwind(26)]
+#[kani::stub(alloc::fmt::format, nofmt)]
+fn h_gcm_split_17_16_17() {
+    gcm_split_body(17, 16, 17);
+}
+
+//@ props: C06
+//@ tier: thorough
+//@ functions: crypto::aesgcm::AesGcm256::encrypt (unaligned pieces, pending block handling); AesGcm256::into_tag; AesGcm256::decrypt
+//@ bounds: CONCRETE message length 17 cut at 17 and 17 (thorough tier: 103 enumerated splits over lengths 0,1,2,15,16,17,20,23,24 incl. every block-boundary alignment); symbolic message bytes, key, nonce
+//@ stubs: AES block function / GHASH multiply are the model primitives; alloc::fmt::format
+//@ outside: other lengths/splits; real AES/GHASH values (suite's NIST vectors)
+//@ replay: verif_replay_aesgcm::gcm_split len=17 c1=17 c2=17
+#[kani::proof]
+#[kani::unwind(26)]
+#[kani::stub(alloc::fmt::format, nofmt)]
+fn h_gcm_split_17_17_17() {
+    gcm_split_body(17, 17, 17);
+}
+
+//@ props: C06
+//@ tier: thorough
+//@ functions: crypto::aesgcm::AesGcm256::encrypt (unaligned pieces, pending block handling); AesGcm256::into_tag; AesGcm256::decrypt
+//@ bounds: CONCRETE message length 23 cut at 0 and 0 (thorough tier: 103 enumerated splits over lengths 0,1,2,15,16,17,20,23,24 incl. every block-boundary alignment); symbolic message bytes, key, nonce
+//@ stubs: AES block function / GHASH multiply are the model primitives; alloc::fmt::format
+//@ outside: other lengths/splits; real AES/GHASH values (suite's NIST vectors)
+//@ replay: verif_replay_aesgcm::gcm_split len=23 c1=0 c2=0
+#[kani::proof]
+#[kani::unwind(26)]
+#[kani::stub(alloc::fmt::format, nofmt)]
+fn h_gcm_split_23_0_0() {
+    gcm_split_body(23, 0, 0);
+}
+
+//@ props: C06
+//@ tier: thorough
+//@ functions: crypto::aesgcm::AesGcm256::encrypt (unaligned pieces, pending block handling); AesGcm256::into_tag; AesGcm256::decrypt
+//@ bounds: CONCRETE message length 23 cut at 0 and 1 (thorough tier: 103 enumerated splits over lengths 0,1,2,15,16,17,20,23,24 incl. every block-boundary alignment); symbolic message bytes, key, nonce
+//@ stubs: AES block function / GHASH multiply are the model primitives; alloc::fmt::format
+//@ outside: other lengths/splits; real AES/GHASH values (suite's NIST vectors)
+//@ replay: verif_replay_aesgcm::gcm_split len=23 c1=0 c2=1
+#[kani::proof]
+#[kani::unwind(26)]
+#[kani::stub(alloc::fmt::format, nofmt)]
+fn h_gcm_split_23_0_1() {
+    gcm_split_body(23, 0, 1);
+}
+
+//@ props: C06
+//@ tier: thorough
+//@ functions: crypto::aesgcm::AesGcm256::encrypt (unaligned pieces, pending block handling); AesGcm256::into_tag; AesGcm256::decrypt
+//@ bounds: CONCRETE message length 23 cut at 0 and 16 (thorough tier: 103 enumerated splits over lengths 0,1,2,15,16,17,20,23,24 incl. every block-boundary alignment); symbolic message bytes, key, nonce
+//@ stubs: AES block function / GHASH multiply are the model primitives; alloc::fmt::format
+//@ outside: other lengths/splits; real AES/GHASH values (suite's NIST vectors)
+//@ replay: verif_replay_aesgcm::gcm_split len=23 c1=0 c2=16
+#[kani::proof]
+#[kani::unwind(26)]
+#[kani::stub(alloc::fmt::format, nofmt)]
+fn h_gcm_split_23_0_16() {
+    gcm_split_body(23, 0, 16);
+}
+
+//@ props: C06
+//@ tier: thorough
+//@ functions: crypto::aesgcm::AesGcm256::encrypt (unaligned pieces, pending block handling); AesGcm256::into_tag; AesGcm256::decrypt
+//@ bounds: CONCRETE message length 23 cut at 0 and 17 (thorough tier: 103 enumerated splits over lengths 0,1,2,15,16,17,20,23,24 incl. every block-boundary alignment); symbolic message bytes, key, nonce
+//@ stubs: AES block function / GHASH multiply are the model primitives; alloc::fmt::format
+//@ outside: other lengths/splits; real AES/GHASH values (suite's NIST vectors)
+//@ replay: verif_replay_aesgcm::gcm_split len=23 c1=0 c2=17
+#[kani::proof]
+#[kani::unwind(26)]
+#[kani::stub(alloc::fmt::format, nofmt)]
+fn h_gcm_split_23_0_17() {
+    gcm_split_body(23, 0, 17);
+}
+
+//@ props: C06
+//@ tier: thorough
+//@ functions: crypto::aesgcm::AesGcm256::encrypt (unaligned pieces, pending block handling); AesGcm256::into_tag; AesGcm256::decrypt
+//@ bounds: CONCRETE message length 23 cut at 0 and 23 (thorough tier: 103 enumerated splits over lengths 0,1,2,15,16,17,20,23,24 incl. every block-boundary alignment); symbolic message bytes, key, nonce
+//@ stubs: AES block function / GHASH multiply are the model primitives; alloc::fmt::format
+//@ outside: other lengths/splits; real AES/GHASH values (suite's NIST vectors)
+//@ replay: verif_replay_aesgcm::gcm_split len=23 c1=0 c2=23
+#[kani::proof]
+#[kani::unwind(26)]
+#[kani::stub(alloc::fmt::format, nofmt)]
+fn h_gcm_split_23_0_23() {
+    gcm_split_body(23, 0, 23);
+}
+
+//@ props: C06
+//@ tier: thorough
+//@ functions: crypto::aesgcm::AesGcm256::encrypt (unaligned pieces, pending block handling); AesGcm256::into_tag; AesGcm256::decrypt
+//@ bounds: CONCRETE message length 23 cut at 1 and 1 (thorough tier: 103 enumerated splits over lengths 0,1,2,15,16,17,20,23,24 incl. every block-boundary alignment); symbolic message bytes, key, nonce
+//@ stubs: AES block function / GHASH multiply are the model primitives; alloc::fmt::format
+//@ outside: other lengths/splits; real AES/GHASH values (suite's NIST vectors)
+//@ replay: verif_replay_aesgcm::gcm_split len=23 c1=1 c2=1
+#[kani::proof]
+#[kani::unwind(26)]
+#[kani::stub(alloc::fmt::format, nofmt)]
+fn h_gcm_split_23_1_1() {
+    gcm_split_body(23, 1, 1);
+}
+
+//@ props: C06
+//@ tier: thorough
+//@ functions: crypto::aesgcm::AesGcm256::encrypt (unaligned pieces, pending block handling); AesGcm256::into_tag; AesGcm256::decrypt
+//@ bounds: CONCRETE message length 23 cut at 1 and 2 (thorough tier: 103 enumerated splits over lengths 0,1,2,15,16,17,20,23,24 incl. every block-boundary alignment); symbolic message bytes, key, nonce
+//@ stubs: AES block function / GHASH multiply are the model primitives; alloc::fmt::format
+//@ outside: other lengths/splits; real AES/GHASH values (suite's NIST vectors)
+//@ replay: verif_replay_aesgcm::gcm_split len=23 c1=1 c2=2
+#[kani::proof]
+#[kani::unwind(26)]
+#[kani::stub(alloc::fmt::format, nofmt)]
+fn h_gcm_split_23_1_2() {
+    gcm_split_body(23, 1, 2);
+}
+
+//@ props: C06
+//@ tier: thorough
+//@ functions: crypto::aesgcm::AesGcm256::encrypt (unaligned pieces, pending block handling); AesGcm256::into_tag; AesGcm256::decrypt
+//@ bounds: CONCRETE message length 23 cut at 1 and 16 (thorough tier: 103 enumerated splits over lengths 0,1,2,15,16,17,20,23,24 incl. every block-boundary alignment); symbolic message bytes, key, nonce
+//@ stubs: AES block function / GHASH multiply are the model primitives; alloc::fmt::format
+//@ outside: other lengths/splits; real AES/GHASH values (suite's NIST vectors)
+//@ replay: verif_replay_aesgcm::gcm_split len=23 c1=1 c2=16
+#[kani::proof]
+#[kani::unwind(26)]
+#[kani::stub(alloc::fmt::format, nofmt)]
+fn h_gcm_split_23_1_16() {
+    gcm_split_body(23, 1, 16);
+}
+
+//@ props: C06
+//@ tier: thorough
+//@ functions: crypto::aesgcm::AesGcm256::encrypt (unaligned pieces, pending block handling); AesGcm256::into_tag; AesGcm256::decrypt
+//@ bounds: CONCRETE message length 23 cut at 1 and 17 (thorough tier: 103 enumerated splits over lengths 0,1,2,15,16,17,20,23,24 incl. every block-boundary alignment); symbolic message bytes, key, nonce
+//@ stubs: AES block function / GHASH multiply are the model primitives; alloc::fmt::format
+//@ outside: other lengths/splits; real AES/GHASH values (suite's NIST vectors)
+//@ replay: verif_replay_aesgcm::gcm_split len=23 c1=1 c2=17
+#[kani::proof]
+#[kani::unwind(26)]
+#[kani::stub(alloc::fmt::format, nofmt)]
+fn h_gcm_split_23_1_17() {
+    gcm_split_body(23, 1, 17);
+}
+
+//@ props: C06
+//@ tier: thorough
+//@ functions: crypto::aesgcm::AesGcm256::encrypt (unaligned pieces, pending block handling); AesGcm256::into_tag; AesGcm256::decrypt
+//@ bounds: CONCRETE message length 23 cut at 1 and 23 (thorough tier: 103 enumerated splits over lengths 0,1,2,15,16,17,20,23,24 incl. every block-boundary alignment); symbolic message bytes, key, nonce
+//@ stubs: AES block function / GHASH multiply are the model primitives; alloc::fmt::format
+//@ outside: other lengths/splits; real AES/GHASH values (suite's NIST vectors)
+//@ replay: verif_replay_aesgcm::gcm_split len=23 c1=1 c2=23
+#[kani::proof]
+#[kani::unwind(26)]
+#[kani::stub(alloc::fmt::format, nofmt)]
+fn h_gcm_split_23_1_23() {
+    gcm_split_body(23, 1, 23);
+}
+
+//@ props: C06
+//@ tier: thorough
+//@ functions: crypto::aesgcm::AesGcm256::encrypt (unaligned pieces, pending block handling); AesGcm256::into_tag; AesGcm256::decrypt
+//@ bounds: CONCRETE message length 23 cut at 11 and 11 (thorough tier: 103 enumerated splits over lengths 0,1,2,15,16,17,20,23,24 incl. every block-boundary alignment); symbolic message bytes, key, nonce
+//@ stubs: AES block function / GHASH multiply are the model primitives; alloc::fmt::format
+//@ outside: other lengths/splits; real AES/GHASH values (suite's NIST vectors)
+//@ replay: verif_replay_aesgcm::gcm_split len=23 c1=11 c2=11
+#[kani::proof]
+#[kani::unwind(26)]
+#[kani::stub(alloc::fmt::format, nofmt)]
+fn h_gcm_split_23_11_11() {
+    gcm_split_body(23, 11, 11);
+}
+
+//@ props: C06
+//@ tier: thorough
+//@ functions: crypto::aesgcm::AesGcm256::encrypt (unaligned pieces, pending block handling); AesGcm256::into_tag; AesGcm256::decrypt
+//@ bounds: CONCRETE message length 23 cut at 11 and 12 (thorough tier: 103 enumerated splits over lengths 0,1,2,15,16,17,20,23,24 incl. every block-boundary alignment); symbolic message bytes, key, nonce
+//@ stubs: AES block function / GHASH multiply are the model primitives; alloc::fmt::format
+//@ outside: other lengths/splits; real AES/GHASH values (suite's NIST vectors)
+//@ replay: verif_replay_aesgcm::gcm_split len=23 c1=11 c2=12
+#[kani::proof]
+#[kani::unwind(26)]
+#[kani::stub(alloc::fmt::format, nofmt)]
+fn h_gcm_split_23_11_12() {
+    gcm_split_body(23, 11, 12);
+}
+
+//@ props: C06
+//@ tier: thorough
+//@ functions: crypto::aesgcm::AesGcm256::encrypt (unaligned pieces, pending block handling); AesGcm256::into_tag; AesGcm256::decrypt
+//@ bounds: CONCRETE message length 23 cut at 11 and 16 (thorough tier: 103 enumerated splits over lengths 0,1,2,15,16,17,20,23,24 incl. every block-boundary alignment); symbolic message bytes, key, nonce
+//@ stubs: AES block function / GHASH multiply are the model primitives; alloc::fmt::format
+//@ outside: other lengths/splits; real AES/GHASH values (suite's NIST vectors)
+//@ replay: verif_replay_aesgcm::gcm_split len=23 c1=11 c2=16
+#[kani::proof]
+#[kani::unwind(26)]
+#[kani::stub(alloc::fmt::format, nofmt)]
+fn h_gcm_split_23_11_16() {
+    gcm_split_body(23, 11, 16);
+}
+
+//@ props: C06
+//@ tier: thorough
+//@ functions: crypto::aesgcm::AesGcm256::encrypt (unaligned pieces, pending block handling); AesGcm256::into_tag; AesGcm256::decrypt
+//@ bounds: CONCRETE message length 23 cut at 11 and 17 (thorough tier: 103 enumerated splits over lengths 0,1,2,15,16,17,20,23,24 incl. every block-boundary alignment); symbolic message bytes, key, nonce
+//@ stubs: AES block function / GHASH multiply are the model primitives; alloc::fmt::format
+//@ outside: other lengths/splits; real AES/GHASH values (suite's NIST vectors)
+//@ replay: verif_replay_aesgcm::gcm_split len=23 c1=11 c2=17
+#[kani::proof]
+#[kani::unwind(26)]
+#[kani::stub(alloc::fmt::format, nofmt)]
+fn h_gcm_split_23_11_17() {
+    gcm_split_body(23, 11, 17);
+}
+
+//@ props: C06
+//@ tier: thorough
+//@ functions: crypto::aesgcm::AesGcm256::encrypt (unaligned pieces, pending block handling); AesGcm256::into_tag; AesGcm256::decrypt
+//@ bounds: CONCRETE message length 23 cut at 11 and 23 (thorough tier: 103 enumerated splits over lengths 0,1,2,15,16,17,20,23,24 incl. every block-boundary alignment); symbolic message bytes, key, nonce
+//@ stubs: AES block function / GHASH multiply are the model primitives; alloc::fmt::format
+//@ outside: other lengths/splits; real AES/GHASH values (suite's NIST vectors)
+//@ replay: verif_replay_aesgcm::gcm_split len=23 c1=11 c2=23
+#[kani::proof]
+#[kani::unwind(26)]
+#[kani::stub(alloc::fmt::format, nofmt)]
+fn h_gcm_split_23_11_23() {
+    gcm_split_body(23, 11, 23);
+}
+
+//@ props: C06
+//@ tier: thorough
+//@ functions: crypto::aesgcm::AesGcm256::encrypt (unaligned pieces, pending block handling); AesGcm256::into_tag; AesGcm256::decrypt
+//@ bounds: CONCRETE message length 23 cut at 15 and 15 (thorough tier: 103 enumerated splits over lengths 0,1,2,15,16,17,20,23,24 incl. every block-boundary alignment); symbolic message bytes, key, nonce
+//@ stubs: AES block function / GHASH multiply are the model primitives; alloc::fmt::format
+//@ outside: other lengths/splits; real AES/GHASH values (suite's NIST vectors)
+//@ replay: verif_replay_aesgcm::gcm_split len=23 c1=15 c2=15
+#[kani::proof]
+#[kani::unwind(26)]
+#[kani::stub(alloc::fmt::format, nofmt)]
+fn h_gcm_split_23_15_15() {
+    gcm_split_body(23, 15, 15);
+}
+
+//@ props: C06
+//@ tier: thorough
+//@ functions: crypto::aesgcm::AesGcm256::encrypt (unaligned pieces, pending block handling); AesGcm256::into_tag; AesGcm256::decrypt
+//@ bounds: CONCRETE message length 23 cut at 15 and 16 (thorough tier: 103 enumerated splits over lengths 0,1,2,15,16,17,20,23,24 incl. every block-boundary alignment); symbolic message bytes, key, nonce
+//@ stubs: AES block function / GHASH multiply are the model primitives; alloc::fmt::format
+//@ outside: other lengths/splits; real AES/GHASH values (suite's NIST vectors)
+//@ replay: verif_replay_aesgcm::gcm_split len=23 c1=15 c2=16
+#[kani::proof]
+#[kani::unwind(26)]
+#[kani::stub(alloc::fmt::format, nofmt)]
+fn h_gcm_split_23_15_16() {
+    gcm_split_body(23, 15, 16);
+}
+
+//@ props: C06
+//@ tier: thorough
+//@ functions: crypto::aesgcm::AesGcm256::encrypt (unaligned pieces, pending block handling); AesGcm256::into_tag; AesGcm256::decrypt
+//@ bounds: CONCRETE message length 23 cut at 15 and 17 (thorough tier: 103 enumerated splits over lengths 0,1,2,15,16,17,20,23,24 incl. every block-boundary alignment); symbolic message bytes, key, nonce
+//@ stubs: AES block function / GHASH multiply are the model primitives; alloc::fmt::format
+//@ outside: other lengths/splits; real AES/GHASH values (suite's NIST vectors)
+//@ replay: verif_replay_aesgcm::gcm_split len=23 c1=15 c2=17
+#[kani::proof]
+#[kani::unwind(26)]
+#[kani::stub(alloc::fmt::format, nofmt)]
+fn h_gcm_split_23_15_17() {
+    gcm_split_body(23, 15, 17);
+}
+
+//@ props: C06
+//@ tier: thorough
+//@ functions: crypto::aesgcm::AesGcm256::encrypt (unaligned pieces, pending block handling); AesGcm256::into_tag; AesGcm256::decrypt
+//@ bounds: CONCRETE message length 23 cut at 15 and 23 (thorough tier: 103 enumerated splits over lengths 0,1,2,15,16,17,20,23,24 incl. every block-boundary alignment); symbolic message bytes, key, nonce
+//@ stubs: AES block function / GHASH multiply are the model primitives; alloc::fmt::format
+//@ outside: other lengths/splits; real AES/GHASH values (suite's NIST vectors)
+//@ replay: verif_replay_aesgcm::gcm_split len=23 c1=15 c2=23
+#[kani::proof]
+#[kani::unwind(26)]
+#[kani::stub(alloc::fmt::format, nofmt)]
+fn h_gcm_split_23_15_23() {
+    gcm_split_body(23, 15, 23);
+}
+
+//@ props: C06
+//@ tier: thorough
+//@ functions: crypto::aesgcm::AesGcm256::encrypt (unaligned pieces, pending block handling); AesGcm256::into_tag; AesGcm256::decrypt
+//@ bounds: CONCRETE message length 23 cut at 16 and 16 (thorough tier: 103 enumerated splits over lengths 0,1,2,15,16,17,20,23,24 incl. every block-boundary alignment); symbolic message bytes, key, nonce
+//@ stubs: AES block function / GHASH multiply are the model primitives; alloc::fmt::format
+//@ outside: other lengths/splits; real AES/GHASH values (suite's NIST vectors)
+//@ replay: verif_replay_aesgcm::gcm_split len=23 c1=16 c2=16
+#[kani::proof]
+#[kani::unwind(26)]
+#[kani::stub(alloc::fmt::format, nofmt)]
+fn h_gcm_split_23_16_16() {
+    gcm_split_body(23, 16, 16);
+}
+
+//@ props: C06
+//@ tier: thorough
+//@ functions: crypto::aesgcm::AesGcm256::encrypt (unaligned pieces, pending block handling); AesGcm256::into_tag; AesGcm256::decrypt
+//@ bounds: CONCRETE message length 23 cut at 16 and 17 (thorough tier: 103 enumerated splits over lengths 0,1,2,15,16,17,20,23,24 incl. every block-boundary alignment); symbolic message bytes, key, nonce
+//@ stubs: AES block function / GHASH multiply are the model primitives; alloc::fmt::format
+//@ outside: other lengths/splits; real AES/GHASH values (suite's NIST vectors)
+//@ replay: verif_replay_aesgcm::gcm_split len=23 c1=16 c2=17
+#[kani::proof]
+#[kani::unwind(26)]
+#[kani::stub(alloc::fmt::format, nofmt)]
+fn h_gcm_split_23_16_17() {
+    gcm_split_body(23, 16, 17);
+}
+
+//@ props: C06
+//@ tier: thorough
+//@ functions: crypto::aesgcm::AesGcm256::encrypt (unaligned pieces, pending block handling); AesGcm256::into_tag; AesGcm256::decrypt
+//@ bounds: CONCRETE message length 23 cut at 16 and 23 (thorough tier: 103 enumerated splits over lengths 0,1,2,15,16,17,20,23,24 incl. every block-boundary alignment); symbolic message bytes, key, nonce
+//@ stubs: AES block function / GHASH multiply are the model primitives; alloc::fmt::format
+//@ outside: other lengths/splits; real AES/GHASH values (suite's NIST vectors)
+//@ replay: verif_replay_aesgcm::gcm_split len=23 c1=16 c2=23
+#[kani::proof]
+#[kani::unwind(26)]
+#[kani::stub(alloc::fmt::format, nofmt)]
+fn h_gcm_split_23_16_23() {
+    gcm_split_body(23, 16, 23);
+}
+
+//@ props: C06
+//@ tier: thorough
+//@ functions: crypto::aesgcm::AesGcm256::encrypt (unaligned pieces, pending block handling); AesGcm256::into_tag; AesGcm256::decrypt
+//@ bounds: CONCRETE message length 23 cut at 22 and 22 (thorough tier: 103 enumerated splits over lengths 0,1,2,15,16,17,20,23,24 incl. every block-boundary alignment); symbolic message bytes, key, nonce
+//@ stubs: AES block function / GHASH multiply are the model primitives; alloc::fmt::format
+//@ outside: other lengths/splits; real AES/GHASH values (suite's NIST vectors)
+//@ replay: verif_replay_aesgcm::gcm_split len=23 c1=22 c2=22
+#[kani::proof]
+#[kani::unwind(26)]
+#[kani::stub(alloc::fmt::format, nofmt)]
+fn h_gcm_split_23_22_22() {
+    gcm_split_body(23, 22, 22);
+}
+
+//@ props: C06
+//@ tier: thorough
+//@ functions: crypto::aesgcm::AesGcm256::encrypt (unaligned pieces, pending block handling); AesGcm256::into_tag; AesGcm256::decrypt
+//@ bounds: CONCRETE message length 23 cut at 22 and 23 (thorough tier: 103 enumerated splits over lengths 0,1,2,15,16,17,20,23,24 incl. every block-boundary alignment); symbolic message bytes, key, nonce
+//@ stubs: AES block function / GHASH multiply are the model primitives; alloc::fmt::format
+//@ outside: other lengths/splits; real AES/GHASH values (suite's NIST vectors)
+//@ replay: verif_replay_aesgcm::gcm_split len=23 c1=22 c2=23
+#[kani::proof]
+#[kani::unwind(26)]
+#[kani::stub(alloc::fmt::format, nofmt)]
+fn h_gcm_split_23_22_23() {
+    gcm_split_body(23, 22, 23);
+}
+
+//@ props: C06
+//@ tier: thorough
+//@ functions: crypto::aesgcm::AesGcm256::encrypt (unaligned pieces, pending block handling); AesGcm256::into_tag; AesGcm256::decrypt
+//@ bounds: CONCRETE message length 23 cut at 23 and 23 (thorough tier: 103 enumerated splits over lengths 0,1,2,15,16,17,20,23,24 incl. every block-boundary alignment); symbolic message bytes, key, nonce
+//@ stubs: AES block function / GHASH multiply are the model primitives; alloc::fmt::format
+//@ outside: other lengths/splits; real AES/GHASH values (suite's NIST vectors)
+//@ replay: verif_replay_aesgcm::gcm_split len=23 c1=23 c2=23
+#[kani::proof]
+#[kani::unwind(26)]
+#[kani::stub(alloc::fmt::format, nofmt)]
+fn h_gcm_split_23_23_23() {
+    gcm_split_body(23, 23, 23);
+}
+
+//@ props: C06
+//@ tier: thorough
+//@ functions: crypto::aesgcm::AesGcm256::encrypt (unaligned pieces, pending block handling); AesGcm256::into_tag; AesGcm256::decrypt
+//@ bounds: CONCRETE message length 24 cut at 0 and 0 (thorough tier: 103 enumerated splits over lengths 0,1,2,15,16,17,20,23,24 incl. every block-boundary alignment); symbolic message bytes, key, nonce
+//@ stubs: AES block function / GHASH multiply are the model primitives; alloc::fmt::format
+//@ outside: other lengths/splits; real AES/GHASH values (suite's NIST vectors)
+//@ replay: verif_replay_aesgcm::gcm_split len=24 c1=0 c2=0
+#[kani::proof]
+#[kani::unwind(26)]
+#[kani::stub(alloc::fmt::format, nofmt)]
+fn h_gcm_split_24_0_0() {
+    gcm_split_body(24, 0, 0);
+}
+
+//@ props: C06
+//@ tier: thorough
+//@ functions: crypto::aesgcm::AesGcm256::encrypt (unaligned pieces, pending block handling); AesGcm256::into_tag; AesGcm256::decrypt
+//@ bounds: CONCRETE message length 24 cut at 0 and 1 (thorough tier: 103 enumerated splits over lengths 0,1,2,15,16,17,20,23,24 incl. every block-boundary alignment); symbolic message bytes, key, nonce
+//@ stubs: AES block function / GHASH multiply are the model primitives; alloc::fmt::format
+//@ outside: other lengths/splits; real AES/GHASH values (suite's NIST vectors)
+//@ replay: verif_replay_aesgcm::gcm_split len=24 c1=0 c2=1
+#[kani::proof]
+#[kani::unwind(26)]
+#[kani::stub(alloc::fmt::format, nofmt)]
+fn h_gcm_split_24_0_1() {
+    gcm_split_body(24, 0, 1);
+}
+
+//@ props: C06
+//@ tier: thorough
+//@ functions: crypto::aesgcm::AesGcm256::encrypt (unaligned pieces, pending block handling); AesGcm256::into_tag; AesGcm256::decrypt
+//@ bounds: CONCRETE message length 24 cut at 0 and 16 (thorough tier: 103 enumerated splits over lengths 0,1,2,15,16,17,20,23,24 incl. every block-boundary alignment); symbolic message bytes, key, nonce
+//@ stubs: AES block function / GHASH multiply are the model primitives; alloc::fmt::format
+//@ outside: other lengths/splits; real AES/GHASH values (suite's NIST vectors)
+//@ replay: verif_replay_aesgcm::gcm_split len=24 c1=0 c2=16
+#[kani::proof]
+#[kani::unwind(26)]
+#[kani::stub(alloc::fmt::format, nofmt)]
+fn h_gcm_split_24_0_16() {
+    gcm_split_body(24, 0, 16);
+}
+
+//@ props: C06
+//@ tier: thorough
+//@ functions: crypto::aesgcm::AesGcm256::encrypt (unaligned pieces, pending block handling); AesGcm256::into_tag; AesGcm256::decrypt
+//@ bounds: CONCRETE message length 24 cut at 0 and 17 (thorough tier: 103 enumerated splits over lengths 0,1,2,15,16,17,20,23,24 incl. every block-boundary alignment); symbolic message bytes, key, nonce
+//@ stubs: AES block function / GHASH multiply are the model primitives; alloc::fmt::format
+//@ outside: other lengths/splits; real AES/GHASH values (suite's NIST vectors)
+//@ replay: verif_replay_aesgcm::gcm_split len=24 c1=0 c2=17
+#[kani::proof]
+#[kani::unwind(26)]
+#[kani::stub(alloc::fmt::format, nofmt)]
+fn h_gcm_split_24_0_17() {
+    gcm_split_body(24, 0, 17);
+}
+
+//@ props: C06
+//@ tier: thorough
+//@ functions: crypto::aesgcm::AesGcm256::encrypt (unaligned pieces, pending block handling); AesGcm256::into_tag; AesGcm256::decrypt
+//@ bounds: CONCRETE message length 24 cut at 1 and 1 (thorough tier: 103 enumerated splits over lengths 0,1,2,15,16,17,20,23,24 incl. every block-boundary alignment); symbolic message bytes, key, nonce
+//@ stubs: AES block function / GHASH multiply are the model primitives; alloc::fmt::format
+//@ outside: other lengths/splits; real AES/GHASH values (suite's NIST vectors)
+//@ replay: verif_replay_aesgcm::gcm_split len=24 c1=1 c2=1
+#[kani::proof]
+#[kani::unwind(26)]
+#[kani::stub(alloc::fmt::format, nofmt)]
+fn h_gcm_split_24_1_1() {
+    gcm_split_body(24, 1, 1);
+}
+
+//@ props: C06
+//@ tier: thorough
+//@ functions: crypto::aesgcm::AesGcm256::encrypt (unaligned pieces, pending block handling); AesGcm256::into_tag; AesGcm256::decrypt
+//@ bounds: CONCRETE message length 24 cut at 1 and 2 (thorough tier: 103 enumerated splits over lengths 0,1,2,15,16,17,20,23,24 incl. every block-boundary alignment); symbolic message bytes, key, nonce
+//@ stubs: AES block function / GHASH multiply are the model primitives; alloc::fmt::format
+//@ outside: other lengths/splits; real AES/GHASH values (suite's NIST vectors)
+//@ replay: verif_replay_aesgcm::gcm_split len=24 c1=1 c2=2
+#[kani::proof]
+#[kani::unwind(26)]
+#[kani::stub(alloc::fmt::format, nofmt)]
+fn h_gcm_split_24_1_2() {
+    gcm_split_body(24, 1, 2);
+}
+
+//@ props: C06
+//@ tier: thorough
+//@ functions: crypto::aesgcm::AesGcm256::encrypt (unaligned pieces, pending block handling); AesGcm256::into_tag; AesGcm256::decrypt
+//@ bounds: CONCRETE message length 24 cut at 1 and 16 (thorough tier: 103 enumerated splits over lengths 0,1,2,15,16,17,20,23,24 incl. every block-boundary alignment); symbolic message bytes, key, nonce
+//@ stubs: AES block function / GHASH multiply are the model primitives; alloc::fmt::format
+//@ outside: other lengths/splits; real AES/GHASH values (suite's NIST vectors)
+//@ replay: verif_replay_aesgcm::gcm_split len=24 c1=1 c2=16
+#[kani::proof]
+#[kani::unwind(26)]
+#[kani::stub(alloc::fmt::format, nofmt)]
+fn h_gcm_split_24_1_16() {
+    gcm_split_body(24, 1, 16);
+}
+
+//@ props: C06
+//@ tier: thorough
+//@ functions: crypto::aesgcm::AesGcm256::encrypt (unaligned pieces, pending block handling); AesGcm256::into_tag; AesGcm256::decrypt
+//@ bounds: CONCRETE message length 24 cut at 1 and 17 (thorough tier: 103 enumerated splits over lengths 0,1,2,15,16,17,20,23,24 incl. every block-boundary alignment); symbolic message bytes, key, nonce
+//@ stubs: AES block function / GHASH multiply are the model primitives; alloc::fmt::format
+//@ outside: other lengths/splits; real AES/GHASH values (suite's NIST vectors)
+//@ replay: verif_replay_aesgcm::gcm_split len=24 c1=1 c2=17
+#[kani::proof]
+#[kani::unwind(26)]
+#[kani::stub(alloc::fmt::format, nofmt)]
+fn h_gcm_split_24_1_17() {
+    gcm_split_body(24, 1, 17);
+}
+
+//@ props: C06
+//@ tier: thorough
+//@ functions: crypto::aesgcm::AesGcm256::encrypt (unaligned pieces, pending block handling); AesGcm256::into_tag; AesGcm256::decrypt
+//@ bounds: CONCRETE message length 24 cut at 1 and 24 (thorough tier: 103 enumerated splits over lengths 0,1,2,15,16,17,20,23,24 incl. every block-boundary alignment); symbolic message bytes, key, nonce
+//@ stubs: AES block function / GHASH multiply are the model primitives; alloc::fmt::format
+//@ outside: other lengths/splits; real AES/GHASH values (suite's NIST vectors)
+//@ replay: verif_replay_aesgcm::gcm_split len=24 c1=1 c2=24
+#[kani::proof]
+#[kani::unwind(26)]
+#[kani::stub(alloc::fmt::format, nofmt)]
+fn h_gcm_split_24_1_24() {
+    gcm_split_body(24, 1, 24);
+}
+
+//@ props: C06
+//@ tier: thorough
+//@ functions: crypto::aesgcm::AesGcm256::encrypt (unaligned pieces, pending block handling); AesGcm256::into_tag; AesGcm256::decrypt
+//@ bounds: CONCRETE message length 24 cut at 12 and 12 (thorough tier: 103 enumerated splits over lengths 0,1,2,15,16,17,20,23,24 incl. every block-boundary alignment); symbolic message bytes, key, nonce
+//@ stubs: AES block function / GHASH multiply are the model primitives; alloc::fmt::format
+//@ outside: other lengths/splits; real AES/GHASH values (suite's NIST vectors)
+//@ replay: verif_replay_aesgcm::gcm_split len=24 c1=12 c2=12
+#[kani::proof]
+#[kani::unwind(26)]
+#[kani::stub(alloc::fmt::format, nofmt)]
+fn h_gcm_split_24_12_12() {
+    gcm_split_body(24, 12, 12);
+}
+
+//@ props: C06
+//@ tier: thorough
+//@ functions: crypto::aesgcm::AesGcm256::encrypt (unaligned pieces, pending block handling); AesGcm256::into_tag; AesGcm256::decrypt
+//@ bounds: CONCRETE message length 24 cut at 12 and 13 (thorough tier: 103 enumerated splits over lengths 0,1,2,15,16,17,20,23,24 incl. every block-boundary alignment); symbolic message bytes, key, nonce
+//@ stubs: AES block function / GHASH multiply are the model primitives; alloc::fmt::format
+//@ outside: other lengths/splits; real AES/GHASH values (suite's NIST vectors)
+//@ replay: verif_replay_aesgcm::gcm_split len=24 c1=12 c2=13
+#[kani::proof]
+#[kani::unwind(26)]
+#[kani::stub(alloc::fmt::format, nofmt)]
+fn h_gcm_split_24_12_13() {
+    gcm_split_body(24, 12, 13);
+}
+
+//@ props: C06
+//@ tier: thorough
+//@ functions: crypto::aesgcm::AesGcm256::encrypt (unaligned pieces, pending block handling); AesGcm256::into_tag; AesGcm256::decrypt
+//@ bounds: CONCRETE message length 24 cut at 12 and 16 (thorough tier: 103 enumerated splits over lengths 0,1,2,15,16,17,20,23,24 incl. every block-boundary alignment); symbolic message bytes, key, nonce
+//@ stubs: AES block function / GHASH multiply are the model primitives; alloc::fmt::format
+//@ outside: other lengths/splits; real AES/GHASH values (suite's NIST vectors)
+//@ replay: verif_replay_aesgcm::gcm_split len=24 c1=12 c2=16
+#[kani::proof]
+#[kani::unwind(26)]
+#[kani::stub(alloc::fmt::format, nofmt)]
+fn h_gcm_split_24_12_16() {
+    gcm_split_body(24, 12, 16);
+}
+
+//@ props: C06
+//@ tier: thorough
+//@ functions: crypto::aesgcm::AesGcm256::encrypt (unaligned pieces, pending block handling); AesGcm256::into_tag; AesGcm256::decrypt
+//@ bounds: CONCRETE message length 24 cut at 12 and 17 (thorough tier: 103 enumerated splits over lengths 0,1,2,15,16,17,20,23,24 incl. every block-boundary alignment); symbolic message bytes, key, nonce
+//@ stubs: AES block function / GHASH multiply are the model primitives; alloc::fmt::format
+//@ outside: other lengths/splits; real AES/GHASH values (suite's NIST vectors)
+//@ replay: verif_replay_aesgcm::gcm_split len=24 c1=12 c2=17
+#[kani::proof]
+#[kani::unwind(26)]
+#[kani::stub(alloc::fmt::format, nofmt)]
+fn h_gcm_split_24_12_17() {
+    gcm_split_body(24, 12, 17);
+}
+
+//@ props: C06
+//@ tier: thorough
+//@ functions: crypto::aesgcm::AesGcm256::encrypt (unaligned pieces, pending block handling); AesGcm256::into_tag; AesGcm256::decrypt
+//@ bounds: CONCRETE message length 24 cut at 12 and 24 (thorough tier: 103 enumerated splits over lengths 0,1,2,15,16,17,20,23,24 incl. every block-boundary alignment); symbolic message bytes, key, nonce
+//@ stubs: AES block function / GHASH multiply are the model primitives; alloc::fmt::format
+//@ outside: other lengths/splits; real AES/GHASH values (suite's NIST vectors)
+//@ replay: verif_replay_aesgcm::gcm_split len=24 c1=12 c2=24
+#[kani::proof]
+#[kani::unwind(26)]
+#[kani::stub(alloc::fmt::format, nofmt)]
+fn h_gcm_split_24_12_24() {
+    gcm_split_body(24, 12, 24);
+}
+
+//@ props: C06
+//@ tier: thorough
+//@ functions: crypto::aesgcm::AesGcm256::encrypt (unaligned pieces, pending block handling); AesGcm256::into_tag; AesGcm256::decrypt
+//@ bounds: CONCRETE message length 24 cut at 15 and 15 (thorough tier: 103 enumerated splits over lengths 0,1,2,15,16,17,20,23,24 incl. every block-boundary alignment); symbolic message bytes, key, nonce
+//@ stubs: AES block function / GHASH multiply are the model primitives; alloc::fmt::format
+//@ outside: other lengths/splits; real AES/GHASH values (suite's NIST vectors)
+//@ replay: verif_replay_aesgcm::gcm_split len=24 c1=15 c2=15
+#[kani::proof]
+#[kani::unwind(26)]
+#[kani::stub(alloc::fmt::format, nofmt)]
+fn h_gcm_split_24_15_15() {
+    gcm_split_body(24, 15, 15);
+}
+
+//@ props: C06
+//@ tier: thorough
+//@ functions: crypto::aesgcm::AesGcm256::encrypt (unaligned pieces, pending block handling); AesGcm256::into_tag; AesGcm256::decrypt
+//@ bounds: CONCRETE message length 24 cut at 15 and 16 (thorough tier: 103 enumerated splits over lengths 0,1,2,15,16,17,20,23,24 incl. every block-boundary alignment); symbolic message bytes, key, nonce
+//@ stubs: AES block function / GHASH multiply are the model primitives; alloc::fmt::format
+//@ outside: other lengths/splits; real AES/GHASH values (suite's NIST vectors)
+//@ replay: verif_replay_aesgcm::gcm_split len=24 c1=15 c2=16
+#[kani::proof]
+#[kani::unwind(26)]
+#[kani::stub(alloc::fmt::format, nofmt)]
+fn h_gcm_split_24_15_16() {
+    gcm_split_body(24, 15, 16);
+}
+
+//@ props: C06
+//@ tier: thorough
+//@ functions: crypto::aesgcm::AesGcm256::encrypt (unaligned pieces, pending block handling); AesGcm256::into_tag; AesGcm256::decrypt
+//@ bounds: CONCRETE message length 24 cut at 15 and 24 (thorough tier: 103 enumerated splits over lengths 0,1,2,15,16,17,20,23,24 incl. every block-boundary alignment); symbolic message bytes, key, nonce
+//@ stubs: AES block function / GHASH multiply are the model primitives; alloc::fmt::format
+//@ outside: other lengths/splits; real AES/GHASH values (suite's NIST vectors)
+//@ replay: verif_replay_aesgcm::gcm_split len=24 c1=15 c2=24
+#[kani::proof]
+#[kani::unwind(26)]
+#[kani::stub(alloc::fmt::format, nofmt)]
+fn h_gcm_split_24_15_24() {
+    gcm_split_body(24, 15, 24);
+}
+
+//@ props: C06
+//@ tier: thorough
+//@ functions: crypto::aesgcm::AesGcm256::encrypt (unaligned pieces, pending block handling); AesGcm256::into_tag; AesGcm256::decrypt
+//@ bounds: CONCRETE message length 24 cut at 16 and 17 (thorough tier: 103 enumerated splits over lengths 0,1,2,15,16,17,20,23,24 incl. every block-boundary alignment); symbolic message bytes, key, nonce
+//@ stubs: AES block function / GHASH multiply are the model primitives; alloc::fmt::format
+//@ outside: other lengths/splits; real AES/GHASH values (suite's NIST vectors)
+//@ replay: verif_replay_aesgcm::gcm_split len=24 c1=16 c2=17
+#[kani::proof]
+#[kani::unwind(26)]
+#[kani::stub(alloc::fmt::format, nofmt)]
+fn h_gcm_split_24_16_17() {
+    gcm_split_body(24, 16, 17);
+}
+
+//@ props: C06
+//@ tier: thorough
+//@ functions: crypto::aesgcm::AesGcm256::encrypt (unaligned pieces, pending block handling); AesGcm256::into_tag; AesGcm256::decrypt
+//@ bounds: CONCRETE message length 24 cut at 16 and 24 (thorough tier: 103 enumerated splits over lengths 0,1,2,15,16,17,20,23,24 incl. every block-boundary alignment); symbolic message bytes, key, nonce
+//@ stubs: AES block function / GHASH multiply are the model primitives; alloc::fmt::format
+//@ outside: other lengths/splits; real AES/GHASH values (suite's NIST vectors)
+//@ replay: verif_replay_aesgcm::gcm_split len=24 c1=16 c2=24
+#[kani::proof]
+#[kani::unwind(26)]
+#[kani::stub(alloc::fmt::format, nofmt)]
+fn h_gcm_split_24_16_24() {
+    gcm_split_body(24, 16, 24);
+}
+
+//@ props: C06
+//@ tier: thorough
+//@ functions: crypto::aesgcm::AesGcm256::encrypt (unaligned pieces, pending block handling); AesGcm256::into_tag; AesGcm256::decrypt
+//@ bounds: CONCRETE message length 24 cut at 23 and 23 (thorough tier: 103 enumerated splits over lengths 0,1,2,15,16,17,20,23,24 incl. every block-boundary alignment); symbolic message bytes, key, nonce
+//@ stubs: AES block function / GHASH multiply are the model primitives; alloc::fmt::format
+//@ outside: other lengths/splits; real AES/GHASH values (suite's NIST vectors)
+//@ replay: verif_replay_aesgcm::gcm_split len=24 c1=23 c2=23
+#[kani::proof]
+#[kani::unwind(26)]
+#[kani::stub(alloc::fmt::format, nofmt)]
+fn h_gcm_split_24_23_23() {
+    gcm_split_body(24, 23, 23);
+}
+
+//@ props: C06
+//@ tier: thorough
+//@ functions: crypto::aesgcm::AesGcm256::encrypt (unaligned pieces, pending block handling); AesGcm256::into_tag; AesGcm256::decrypt
+//@ bounds: CONCRETE message length 24 cut at 23 and 24 (thorough tier: 103 enumerated splits over lengths 0,1,2,15,16,17,20,23,24 incl. every block-boundary alignment); symbolic message bytes, key, nonce
+//@ stubs: AES block function / GHASH multiply are the model primitives; alloc::fmt::format
+//@ outside: other lengths/splits; real AES/GHASH values (suite's NIST vectors)
+//@ replay: verif_replay_aesgcm::gcm_split len=24 c1=23 c2=24
+#[kani::proof]
+#[kani::unwind(26)]
+#[kani::stub(alloc::fmt::format, nofmt)]
+fn h_gcm_split_24_23_24() {
+    gcm_split_body(24, 23, 24);
+}
+
+//@ props: C06
+//@ tier: thorough
+//@ functions: crypto::aesgcm::AesGcm256::encrypt (unaligned pieces, pending block handling); AesGcm256::into_tag; AesGcm256::decrypt
+//@ bounds: CONCRETE message length 24 cut at 24 and 24 (thorough tier: 103 enumerated splits over lengths 0,1,2,15,16,17,20,23,24 incl. every block-boundary alignment); symbolic message bytes, key, nonce
+//@ stubs: AES block function / GHASH multiply are the model primitives; alloc::fmt::format
+//@ outside: other lengths/splits; real AES/GHASH values (suite's NIST vectors)
+//@ replay: verif_replay_aesgcm::gcm_split len=24 c1=24 c2=24
+#[kani::proof]
+#[kani::unwind(26)]
+#[kani::stub(alloc::fmt::format, nofmt)]
+fn h_gcm_split_24_24_24() {
+    gcm_split_body(24, 24, 24);
+}
+
 fn gcm_split_body(len: usize, c1: usize, c2: usize) {
     let key: Key = [kani::any(); 32];
     let nonce: Nonce = [kani::any(); 12];
